@@ -293,6 +293,12 @@ func (ds *Dataset) StoreEntities(entities []*Entity) (Error error) {
 		verifhook.LockFree("ds:" + ds.ID)
 	}()
 
+	// a handle resolved before the dataset was deleted must not write any more: the data would be stored under
+	// the deleted dataset's id, and the items counter of a dataset re-created with the same name would be bumped
+	if ds.markedForDeletion {
+		return fmt.Errorf("dataset %v has been deleted", ds.ID)
+	}
+
 	return ds.storeEntities(entities)
 }
 
